@@ -66,7 +66,9 @@ func sysStopAll() {
 //   R<tag>     the terminal answers command <tag> with a 0x0001 response echoing its platform serial
 //   W          the terminal sends a 0x0001 response echoing a serial nobody waits for
 //   H          the terminal sends a heartbeat and must get its general response
+//   C<tag>Z    the same with time-out 0, which the library documents as "use the default of 3 s"
 //   T          nothing happens for 450 ms (short timeouts fire)
+//   U          nothing happens for 3.3 s (the default time-out fires as well)
 //   X          the terminal closes the connection
 // result: "<tag>=resp|timeout|fail|noexist|pending ..." in tag order, then "hb=<answered>/<sent>".
 
@@ -84,6 +86,7 @@ func actNextPhone() []byte {
 type actCall struct {
 	tag      string
 	short    bool
+	deflt    bool // requested with time-out 0: the library's default of 3 s applies
 	serial   int // platform serial the terminal saw for it (-1 unknown)
 	result   string
 	elapsed  int
@@ -106,6 +109,7 @@ func runActScript(script string, srvArgs ...string) (string, *fw.OracleFailure) 
 	}()
 	calls := map[string]*actCall{}
 	var order []string
+	var lateOrc *fw.OracleFailure
 	hbSent, hbAnswered := 0, 0
 	bursts, burstWant, burstGot := 0, 0, 0
 	termSerial := uint16(100)
@@ -124,9 +128,9 @@ func runActScript(script string, srvArgs ...string) (string, *fw.OracleFailure) 
 						c.elapsed = sock.Int(e, "elapsed_ms")
 						errS := sock.Str(e, "err")
 						switch {
-						case strings.Contains(errS, "key not exist"):
+						case sock.Bool(e, "isNotExist"): // the exported sentinel, as a caller tests it (errors.Is)
 							c.result = "noexist"
-						case strings.Contains(errS, "overtime"):
+						case sock.Bool(e, "isOvertime"):
 							c.result = "timeout"
 						case errS != "":
 							c.result = "fail"
@@ -218,7 +222,10 @@ func runActScript(script string, srvArgs ...string) (string, *fw.OracleFailure) 
 			if short {
 				to = 150
 			}
-			c := &actCall{tag: tag, short: short, serial: -1, started: time.Now()}
+			if strings.HasSuffix(tok, "Z") {
+				to = 0
+			}
+			c := &actCall{tag: tag, short: short, deflt: to == 0, serial: -1, started: time.Now()}
 			calls[tag] = c
 			order = append(order, tag)
 			_ = srv.Command(fmt.Sprintf("send %s %s %d 00 %d", tag, key, 0x8103, to))
@@ -240,7 +247,15 @@ func runActScript(script string, srvArgs ...string) (string, *fw.OracleFailure) 
 			body := []byte{byte(c.serial >> 8), byte(c.serial), 0x81, 0x03, 0}
 			_ = cl.Send(frames.Build(frames.H{ID: 0x0001, Phone: phone, Serial: termSerial}, body))
 			termSerial++
-			time.Sleep(30 * time.Millisecond)
+			// every action is awaited: the call this response belongs to returns (a fixed pause let a disconnect that
+			// follows overtake the writer on a loaded machine, and then the caller rightly sees "closed")
+			for dl := time.Now().Add(1500 * time.Millisecond); !c.returned && time.Now().Before(dl); {
+				collect(0)
+				if !c.returned {
+					time.Sleep(5 * time.Millisecond)
+				}
+			}
+			time.Sleep(10 * time.Millisecond)
 		case tok == "W":
 			if cl != nil {
 				_ = cl.Send(frames.Build(frames.H{ID: 0x0001, Phone: phone, Serial: termSerial}, []byte{0xee, 0xee, 0x81, 0x03, 0}))
@@ -266,6 +281,14 @@ func runActScript(script string, srvArgs ...string) (string, *fw.OracleFailure) 
 			}
 		case tok == "T":
 			time.Sleep(450 * time.Millisecond)
+		case tok == "U":
+			time.Sleep(3300 * time.Millisecond)
+			collect(0)
+			for _, tag := range order {
+				if c := calls[tag]; c.deflt && !c.returned && cl != nil && lateOrc == nil {
+					lateOrc = &fw.OracleFailure{Sig: "active/default-timeout", Msg: fmt.Sprintf("call %s with time-out 0 (the library default of 3 s applies) has not returned %d ms after it was made, the terminal being connected and silent", tag, time.Since(c.started).Milliseconds())}
+				}
+			}
 		case tok == "X":
 			if cl != nil {
 				cl.Close()
@@ -281,9 +304,14 @@ func runActScript(script string, srvArgs ...string) (string, *fw.OracleFailure) 
 		srv.WaitForFrom(mark, func(e sock.Event) bool { return sock.Str(e, "event") == "leave" && sock.Str(e, "key") == key }, 3*time.Second)
 	}
 	collect(1500 * time.Millisecond)
+	if os.Getenv("VERIF_DEBUG_EVENTS") != "" {
+		for _, e := range srv.Snapshot()[mark:] {
+			fmt.Fprintf(os.Stderr, "event %v\n", e)
+		}
+	}
 	sort.Strings(order)
 	var parts []string
-	var orc *fw.OracleFailure
+	orc := lateOrc
 	for _, tag := range order {
 		c := calls[tag]
 		res := c.result
@@ -302,6 +330,9 @@ func runActScript(script string, srvArgs ...string) (string, *fw.OracleFailure) 
 		}
 		if c.returned && c.short && c.result == "timeout" && c.elapsed > 150+1500 && orc == nil {
 			orc = &fw.OracleFailure{Sig: "active/late-timeout", Msg: fmt.Sprintf("call %s with a 150 ms timeout returned after %d ms", tag, c.elapsed)}
+		}
+		if c.returned && c.deflt && c.result == "timeout" && (c.elapsed > 3000+1500 || c.elapsed < 2500) && orc == nil {
+			orc = &fw.OracleFailure{Sig: "active/default-timeout", Msg: fmt.Sprintf("call %s with time-out 0 (library default 3 s) returned after %d ms", tag, c.elapsed)}
 		}
 		parts = append(parts, tag+"="+res)
 	}
@@ -388,6 +419,11 @@ func genActScriptsRaw(r *fw.Rng, n int, withClose bool) []string {
 	out = append(out, "J0,CaL,W,Ra", "J0,CaS,W,T", "J0,CaL,CbL,W,Rb,Ra")
 	// a stray DEDICATED response (0x0104 with a serial nobody waits for) while exactly one / two commands are outstanding
 	out = append(out, "J,CaL,V,Ra", "J,CaS,V,T", "J,CaL,CbL,V,Ra,Rb", "J,CaL,Ra,V,CbL,V,Rb")
+	// time-out 0 means "the default of 3 s", not "no time-out": a terminal that stays connected and silent
+	out = append(out, "J,CaZ,CbL,U,H,Rb")
+	if withClose {
+		out = append(out, "J,CaZ,CbS,T,X")
+	}
 	for len(out) < n {
 		toks := []string{"J"}
 		live := true
